@@ -103,6 +103,8 @@ enum Fs {
     WrongSign,
     /// 0.9999 of the span: the piece left for the second step is a ten-thousandth of the interval
     AlmostSpan,
+    /// twice the span, pointing away from xend
+    WrongSignTwice,
 }
 #[derive(Clone, Copy, Debug, PartialEq)]
 enum Ms {
@@ -248,7 +250,7 @@ pub fn run_check(replay: Option<Value>) -> i32 {
     let x0s: Vec<f64> = if thorough { vec![0.0, 1.0, -1e3, 0.3, 1e6] } else { vec![0.0, 1.0, -1e3, 0.3] };
     // (1e200: squares of the abscissae overflow)
     let spans: Vec<f64> = vec![1e-12, 1e-9, 1e-3, 1.0, 1e3, 1e9, 1e200, f64::INFINITY];
-    let fss = [Fs::None, Fs::Seventh, Fs::Span, Fs::TwiceSpan, Fs::WrongSign, Fs::AlmostSpan];
+    let fss = [Fs::None, Fs::Seventh, Fs::Span, Fs::TwiceSpan, Fs::WrongSign, Fs::AlmostSpan, Fs::WrongSignTwice];
     let mss = [Ms::None, Ms::Inf, Ms::Quarter, Ms::Odd, Ms::FiveSpan];
     let evs = [Ev::None, Ev::NonTerminal, Ev::Terminal, Ev::TerminalPair];
     let tols: Vec<f64> = if thorough { vec![1e-3, 1e-8] } else { vec![1e-3] };
@@ -304,6 +306,7 @@ pub fn run_check(replay: Option<Value>) -> i32 {
             Fs::TwiceSpan => Some(dir * 2.0 * nominal),
             Fs::WrongSign => Some(-dir * nominal / 7.0),
             Fs::AlmostSpan => Some(dir * 0.9999 * nominal),
+            Fs::WrongSignTwice => Some(-dir * 2.0 * nominal),
         };
         c.max_step = match ms {
             Ms::None => None,
